@@ -134,6 +134,8 @@ type PatchItem struct {
 	Key    string
 	Status string
 	Touch  bool // instead of setting status: SET touched = 1 (leaves status as it is / as seeded)
+	Meta   bool // the patch carries its own per-key Meta (replaces the request-level Meta)
+	Cond   int  // per-key Condition: 0 none, 1 one that always holds, 2 one that never holds
 }
 
 // PatchStatus runs one PatchTreasures batch. create => CreateIfNotExist.
@@ -149,7 +151,17 @@ func (e *Env) PatchStatusSeed(swamp string, items []PatchItem, cap *hydrapb.Cap,
 		if it.Touch {
 			op = &hydrapb.PatchOp{Op: hydrapb.PatchOp_SET, Path: "touched", Value: Enc(int64(1))}
 		}
-		ps = append(ps, &hydrapb.TreasurePatch{Key: it.Key, Ops: []*hydrapb.PatchOp{op}})
+		tp := &hydrapb.TreasurePatch{Key: it.Key, Ops: []*hydrapb.PatchOp{op}}
+		if it.Meta {
+			tp.Meta = &hydrapb.PatchMeta{SetUpdatedAt: true, SetUpdatedBy: strp("per-key")}
+		}
+		switch it.Cond {
+		case 1:
+			tp.Condition = &hydrapb.PatchCondition{Path: "no_such_field", Operator: hydrapb.PatchCondition_NOT_EXISTS}
+		case 2:
+			tp.Condition = &hydrapb.PatchCondition{Path: "no_such_field", Operator: hydrapb.PatchCondition_EXISTS}
+		}
+		ps = append(ps, tp)
 	}
 	return e.S.GW.PatchTreasures(context.Background(), &hydrapb.PatchTreasuresRequest{
 		IslandID: Island, SwampName: swamp, CreateIfNotExist: create, InitialMsgpackOnCreate: seed, Patches: ps, Cap: cap, Meta: meta})
